@@ -75,7 +75,10 @@ def corpus(prop):
     out = []
     for p in sorted(glob.glob(os.path.join(VERIF, "selftest", prop, "*.diff"))):
         out.append((os.path.relpath(p, VERIF), p, "benign" in os.path.basename(p)))
-    for vd in sorted(glob.glob(os.path.join(VERIF, "seeded", "*", "verdict.json"))):
+    for sd in sorted(glob.glob(os.path.join(VERIF, "seeded", "*"))):
+        vd = os.path.join(sd, "verdict-now.json")
+        if not os.path.exists(vd):
+            vd = os.path.join(sd, "verdict.json")
         try:
             v = json.load(open(vd))
         except Exception:
